@@ -51,6 +51,7 @@ pub fn tok16_obs(rows: usize, cheap: usize) -> String {
         cates: vec![],
         surfaces: vec!["a".into(), "b".into()],
         has_space: false,
+        space_chars: vec![],
     };
     match tok::build_dict(&d) {
         Some(Ok(dict)) => {
@@ -105,7 +106,7 @@ fn tok_profile(profile: &str, seed: u64, n: usize, out: &mut dyn Write) {
                 cfg.kind = Some(if rng.chance(2, 3) { 1 } else { 0 });
             }
             "c06" | "c08" => {
-                cfg.kind = if rng.chance(1, 2) { None } else { Some(0) };
+                cfg.kind = if rng.chance(2, 3) { None } else { Some(0) };
                 cfg.max_ids = 6;
             }
             // many connection ids: the sort of compute_probs works on slices past the small-sort threshold, with many ties
@@ -227,9 +228,11 @@ fn tok_profile(profile: &str, seed: u64, n: usize, out: &mut dyn Write) {
                     let variants = 3 + crng.below(4);
                     for _ in 0..variants {
                         let mut sent = String::new();
+                        // runs of the characters that THIS dictionary puts into SPACE
+                        let sp: Vec<char> = if d.space_chars.is_empty() { vec![' ', '\u{3000}'] } else { d.space_chars.clone() };
                         let run = |rng: &mut Rng, min: usize| -> String {
                             let n = min + rng.below(3);
-                            (0..n).map(|_| if rng.chance(1, 3) { '\u{3000}' } else { ' ' }).collect()
+                            (0..n).map(|_| if rng.chance(1, 3) { sp[sp.len() - 1] } else { sp[0] }).collect()
                         };
                         sent.push_str(&run(&mut crng, 0));
                         for (k, sg) in segs.iter().enumerate() {
@@ -294,7 +297,15 @@ fn tok_profile(profile: &str, seed: u64, n: usize, out: &mut dyn Write) {
                                 }
                                 dops.push(DOp::User(csv.into_bytes()));
                             }
-                            2 => dops.push(DOp::UserNone),
+                            2 => {
+                                // clearing, or (now and then) a user file that is empty / only blank lines: an error, and in no
+                                // case a way of keeping the previous user lexicon
+                                if crng.chance(1, 3) {
+                                    dops.push(DOp::User(crng.pick(&[&b""[..], &b"\n"[..], &b"\r\n\r\n"[..], &b" \n"[..]]).to_vec()));
+                                } else {
+                                    dops.push(DOp::UserNone);
+                                }
+                            }
                             3 | 4 => {
                                 let mut l = gen_perm(&mut crng, d.num_left);
                                 let mut r = gen_perm(&mut crng, d.num_right);
